@@ -63,6 +63,15 @@ Definition check_reserved := mismatches reserved_ok.
 
 Definition FUEL : nat := 2000.
 
+(* ---- forests built by the REAL parser: the well-formedness hypotheses of the
+   scope-tree theorems must hold for them: (symbols, module scope) *)
+Definition parsedwf_ok (c : list zsym * zscope) : bool :=
+  let '(syms, modsc) := c in
+  let st := mk_symtab syms in
+  let m := mk_scope modsc in
+  wf_slots st m && wf_number st (module_top m) (sc_children m).
+Definition check_parsedwf := mismatches parsedwf_ok.
+
 (* ---- NumberRenamer: (symbols, reserved, toplevel, nested, Go NameForSymbol of every symbol)
    also evaluates the specification predicate on the names observed on the Go
    code whenever the tree is well-formed *)
